@@ -69,6 +69,17 @@ func runSysPlug(x *X) {
 	if c.Intn(3, "L1-big") == 0 {
 		L1 = 500 + c.Intn(3600, "L1b")
 	}
+	// now and then the request limit is simply left out of the configuration: the documented
+	// default applies (README / docs/plugin-development.md: 10 MB for requests, 50 MB for responses)
+	defOdds := 100
+	if x.Tier == "thorough" {
+		defOdds = 30
+	}
+	defaultReqLimit := wantSize && !wantGzip && c.Intn(defOdds, "request-limit-left-out") == 0
+	if defaultReqLimit {
+		L1 = 10 << 20
+		x.Probe("documented-default-request-limit")
+	}
 	L2 := 1 + c.Intn(64, "L2")
 	if c.Intn(3, "L2-big") == 0 {
 		L2 = 500 + c.Intn(3600, "L2b")
@@ -84,6 +95,9 @@ func runSysPlug(x *X) {
 	ctypes := [][]string{{"text/", "application/json"}, {"application/json"}, {"text/html", "text/css", "application/json", "application/javascript"}}[c.Intn(3, "ctypes")]
 	var chain []config.PluginConfig
 	sizeCfg := config.PluginConfig{Name: "size_limit", Config: map[string]interface{}{"max_request_body": L1, "max_response_body": L2}}
+	if defaultReqLimit {
+		sizeCfg = config.PluginConfig{Name: "size_limit", Config: map[string]interface{}{"max_response_body": L2}}
+	}
 	cts := make([]interface{}, len(ctypes))
 	for i, s := range ctypes {
 		cts[i] = s
@@ -91,7 +105,7 @@ func runSysPlug(x *X) {
 	gzipCfg := config.PluginConfig{Name: "gzip", Config: map[string]interface{}{"level": float64(level), "min_size": float64(minSize), "content_types": cts}}
 	var parts []config.PluginConfig
 	if wantSize {
-		if !wantGzip && c.Intn(3, "two-size-limits") == 0 {
+		if !wantGzip && !defaultReqLimit && c.Intn(3, "two-size-limits") == 0 {
 			// two size_limit entries in one chain (say a global one and a stricter one for this
 			// listener): the stricter limit of each direction is L1 / L2, the other entry is
 			// looser; which entry carries which is drawn, their chain positions too
@@ -174,6 +188,13 @@ func runSysPlug(x *X) {
 			case 5:
 				n = c.Intn(2*L1+2, "reqn")
 			}
+			if defaultReqLimit {
+				// (10 MB bodies: one per run, right at the limit)
+				n = 0
+				if i == 0 {
+					n = L1 + []int{-1, 0, 1, 4096}[c.Intn(4, "default-limit-delta")]
+				}
+			}
 			ex.body = sizedBody(x, n, true, "req")
 			ex.chunked = c.Intn(2, "reqchunked") == 1
 			ex.pieces = genPieces(x, len(ex.body), "req")
@@ -254,7 +275,7 @@ func runSysPlug(x *X) {
 		m.plain = sizedBody(x, n, m.compressible, "resp")
 		rs.body = m.plain
 		if wantGzip && n > 0 && c.Intn(6, "pre-encoded") == 0 {
-			m.preEncoded = []string{"gzip", "br", "deflate", "zstd", "x-gzip"}[c.Intn(5, "pre-kind")]
+			m.preEncoded = []string{"gzip", "br", "deflate", "zstd", "x-gzip", "identity", "Identity"}[c.Intn(7, "pre-kind")] // (a label is a label: the backend has spoken)
 			if m.preEncoded == "gzip" {
 				rs.body = gz(m.plain)
 			}
